@@ -90,7 +90,7 @@ func props() map[string]Prop {
 				{Name: "procs", Pkg: "internal/upload", Harness: "internal_upload", Run: "^TestVerifUploadProcs$", Instrument: uploadInstr, Timeout: 40 * time.Minute},
 				{Name: "public", Pkg: "internal/upload", Harness: "internal_upload", Run: "^TestVerifC01Public$", Instrument: uploadInstr, Timeout: 30 * time.Minute},
 			},
-			Assume: []string{"sums stay below 2^62 (reports carry int64 in JSON); counter names that are not valid UTF-8 are expected in reports as encoding/json renders them (U+FFFD per invalid byte)", "counter files are produced by the independent writer in /verif/ref with the documented metadata"},
+			Assume: []string{"weekly sums beyond 2^63-1 are expected as 2^63-1 (reports carry signed 64-bit values; counter values saturate rather than wrap); counter names that are not valid UTF-8 are expected in reports as encoding/json renders them (U+FFFD per invalid byte)", "counter files are produced by the independent writer in /verif/ref with the documented metadata"},
 		},
 		{
 			ID: "C01", Level: "exploration",
